@@ -5,7 +5,9 @@ Leg A tie: the per-rotation loop bodies of corr/flc/mcc_scoring are *translated 
 Leg B: real scan / scan_subsets under split dictionaries, job schedules, rotation orders and histories, for targets
 handed over in every representation the library accepts (C / Fortran / strided / read-only arrays, float32, integers,
 numpy.memmap, Density in memory and memory-mapped from an MRC file), analyzer options (thresholds incl. ties, memory-
-mapped result arrays), contrast inversion, spline orders, intensity scales and offsets."""
+mapped result arrays), contrast inversion, spline orders, intensity scales and offsets; the orchestration itself (which
+jobs scan_subsets creates, what scan hands to its analyzers, the two merge calls) recorded on the real functions and
+compared with Pm.C02.enumJobs, and integer-valued searches end to end against Pm.C02.scanSubsetsRun."""
 import contextlib
 import io
 import os
@@ -27,7 +29,12 @@ RULE = ("split dictionaries with 1..5 parts on any subset of axes (tiles down to
         "numpy.memmap (float32/float64, with a file offset, Fortran-ordered, a slice of a mapping), Density (in memory, memory-mapped "
         "MRC); templates / masks as Fortran / strided / reversed / read-only arrays; masks and rotations given to the constructor or "
         "assigned afterwards; invert_target; score thresholds -1e30 / default / inside the "
-        "score range / equal to a score; use_memmap results; histories [r], [r', r], [r, r', r] with a recording callback. "
+        "score range / equal to a score; use_memmap results; histories [r], [r', r], [r, r', r] with a recording callback; "
+        "the orchestration itself: scan_subsets / scan run with a recording analyzer class and logging wrappers around "
+        "subset_by_slice, scan and _split_rotations_on_jobs (ranks 2/3, 1-4 parts per axis not dividing the extent, template "
+        "parts, schedules (1,1) (2,1) (1,2) (2,2) (1,4) (3,1) (1,3) (3,2), more inner jobs than rotations, edge padding on/off; "
+        "joblib.Parallel replaced by a sequential stand-in, and real loky workers) against Pm.C02.enumJobs; integer-valued "
+        "searches (CC, grid rotations, thresholds) end to end against Pm.C02.scanSubsetsRun fed with definition-level tile scores. "
         "distinct = distinct (score, shapes, splits, schedule, order permutation, flags, representation) tuples; the "
         "unsplit (1,1) identity-order reference itself is not counted")
 ASSUMPTIONS = ["float64 noise between differently tiled FFTs is below 1e-7 on normalised scores; on CC / LCC below "
@@ -38,6 +45,9 @@ ASSUMPTIONS = ["float64 noise between differently tiled FFTs is below 1e-7 on no
                "MCC problems use templates with pairwise distinct values (a template that is constant on the overlap of the two masks "
                "makes the score 0/0)",
                "loky scheduling beyond the schedules actually run is not explored",
+               "orchestration model (Pm.C02.enumJobs / scanSubsetsRun): target and template of equal rank, no batch axes; the "
+               "per-(tile, rotation) score arrays enter as a function of the job's slices and the rotation; most recorded runs replace "
+               "joblib.Parallel by a sequential stand-in (scan forks a SharedMemoryManager, so several scans cannot share one process as threads)",
                "the buffer-language translation treats a ufunc with out=<buffer> as a full overwrite and "
                "rigid_transform(out=...) as a partial write (it writes out[:template.shape] only)"]
 TRUSTED = ["C02: pv/c02_extract.py (AST translator of the three scoring loops into Pm.C02.Prog); joblib/loky process pool"]
@@ -445,6 +455,390 @@ def _mcc_band(score_fn, R, ns):
         band |= dec
         worst = max(worst, float(np.max(np.abs(a - b)[~dec])) if (~dec).any() else 0.0)
     return band, worst
+
+
+# ---------------------------------------------------------------------------------------------------------------------
+# the orchestration of scan_subsets / scan, recorded on the real functions (Pm.C02.enumJobs is the model)
+
+def _enum_rotations(nd, n):
+    """n pairwise distinct proper rotations (identified again by value when the analyzer is called)"""
+    out = []
+    for k in range(n):
+        a = 0.3 + 0.37 * k
+        m = np.eye(nd)
+        m[0, 0], m[0, 1], m[1, 0], m[1, 1] = np.cos(a), -np.sin(a), np.sin(a), np.cos(a)
+        out.append(m)
+    return np.stack(out).astype(np.float32)
+
+
+class EnumRecorder:
+    """callback_class that records how `scan` constructed it, which rotations it was handed, what `_postprocess` was told
+    and what the two `merge` calls received.  Module level: loky workers pickle it by reference."""
+    shared = True          # as on MaxScoreOverRotations (a property object on the class): one analyzer per inner job
+
+    def __init__(self, shape=None, offset=None, thread_safe=None, convolution_mode=None, targetshape=None, templateshape=None,
+                 fourier_shift=None, convolution_shape=None, fast_shape=None, score_threshold=None, **kwargs):
+        self.rec = {"shape": [int(x) for x in shape], "offset": [int(x) for x in np.asarray(offset).reshape(-1)],
+                    "thread_safe": bool(thread_safe), "convolution_mode": convolution_mode,
+                    "targetshape": [int(x) for x in targetshape], "templateshape": [int(x) for x in templateshape],
+                    "convolution_shape": [int(x) for x in convolution_shape], "score_threshold": score_threshold,
+                    "fourier_shift": None if fourier_shift is None else [int(x) for x in fourier_shift],
+                    "rots": [], "post": None}
+
+    def __call__(self, scores, rotation_matrix, **kwargs):
+        self.rec["rots"].append([float(x) for x in np.asarray(rotation_matrix, dtype=np.float64).reshape(-1)])
+        self.rec.setdefault("score_shapes", []).append([int(x) for x in np.asarray(scores).shape])
+
+    def _postprocess(self, targetshape=None, templateshape=None, convolution_shape=None, fourier_shift=None,
+                     convolution_mode=None, **kwargs):
+        from tme.matching_utils import apply_convolution_mode
+        arr = np.zeros(self.rec["shape"], dtype=np.int8)
+        if fourier_shift is not None:
+            arr = np.roll(arr, shift=tuple(int(x) for x in fourier_shift), axis=tuple(range(arr.ndim)))
+        if convolution_mode is not None:
+            arr = apply_convolution_mode(arr, convolution_mode=convolution_mode, s1=targetshape, s2=templateshape,
+                                         convolution_shape=convolution_shape)
+        self.rec["post"] = {"out_shape": [int(x) for x in arr.shape], "convolution_mode": convolution_mode,
+                            "offset": None if kwargs.get("offset") is None else [int(x) for x in np.asarray(kwargs["offset"]).reshape(-1)]}
+        return self
+
+    def __iter__(self):
+        yield self.rec
+
+    @classmethod
+    def merge(cls, stores, **kwargs):
+        return {"merge": [s[0] if isinstance(s, tuple) else s for s in stores],
+                "score_threshold": kwargs.get("score_threshold"), "inner": "targetshape" in kwargs}
+
+
+def _enum_real(ns, ms, ts, tms, sched, nrot, pe, backend="sequential", score="CC", pad_fourier=True):
+    """real scan_subsets on a small problem with the recording analyzer; subset_by_slice and scan are wrapped (in this
+    process) to log the slices, paddings and device numbers.  Returns the canonical record compared with Pm.C02.enumJobs."""
+    import joblib
+    import tme.matching_exhaustive as MX
+    from tme.matching_data import MatchingData
+    rng = np.random.default_rng(7)
+    R = _enum_rotations(len(ns), nrot)
+    log = {"subset": [], "scan": [], "splitrot": [], "parallel": []}
+    real_subset, real_scan, real_split = MatchingData.subset_by_slice, MX.scan, MatchingData._split_rotations_on_jobs
+
+    def subset_logged(self, *a, **k):
+        ret = real_subset(self, *a, **k)
+        log["subset"].append({
+            "targetSlice": [[int(x.start), int(x.stop)] for x in k["target_slice"]],
+            "templateSlice": [[int(x.start), int(x.stop)] for x in k["template_slice"]],
+            "pad": [int(x) for x in k["target_pad"]],
+            "offset": [int(x) for x in ret._translation_offset], "valid": bool(ret._is_padded),
+            "targetShape": [int(x) for x in ret._target.shape], "templateShape": [int(x) for x in ret._template.shape]})
+        return ret
+
+    def scan_logged(*a, **k):
+        log["scan"].append({"gpu_index": int(k.get("gpu_index", -1)), "n_jobs": int(k["n_jobs"]),
+                            "offset": [int(x) for x in k["matching_data"]._translation_offset]})
+        return real_scan(*a, **k)
+
+    def split_logged(self, n_jobs):
+        ret = real_split(self, n_jobs)
+        log["splitrot"].append({"n_jobs": int(n_jobs), "sizes": [int(c.shape[0]) for c in ret]})
+        return ret
+
+    scan_logged.__wrapped__ = real_scan
+    with _quiet():
+        md = MatchingData(target=rng.standard_normal(ns).astype(np.float32), template=rng.standard_normal(ms).astype(np.float32),
+                          rotations=R)
+        setup, scoring = MX.MATCHING_EXHAUSTIVE_REGISTER[score]
+        MatchingData.subset_by_slice = subset_logged
+        real_parallel = MX.Parallel
+
+        class SeqParallel:
+            """joblib.Parallel stand-in: runs the delayed calls one after the other in this thread (scan starts a
+            SharedMemoryManager, i.e. forks, so running several scans in threads of one process is not an option)"""
+            def __init__(self, n_jobs=None, **kw):
+                log["parallel"].append(int(n_jobs))
+
+            def __call__(self, tasks):
+                return [f(*a, **k) for f, a, k in tasks]
+
+        if backend == "sequential":
+            MX.scan = scan_logged
+            MX.Parallel = SeqParallel
+            MatchingData._split_rotations_on_jobs = split_logged
+        try:
+            res = MX.scan_subsets(md, scoring, setup, callback_class=EnumRecorder,
+                                  callback_class_args={"score_threshold": 0.25}, job_schedule=tuple(sched),
+                                  target_splits=dict(ts), template_splits=dict(tms), pad_target_edges=pe,
+                                  pad_fourier=pad_fourier)
+        finally:
+            MatchingData.subset_by_slice = real_subset
+            MX.scan = real_scan
+            MX.Parallel = real_parallel
+            MatchingData._split_rotations_on_jobs = real_split
+
+    def rot_index(flat):
+        m = np.array(flat).reshape(R.shape[1:])
+        hits = [i for i in range(R.shape[0]) if np.allclose(R[i], m, atol=1e-6)]
+        return hits[0] if len(hits) == 1 else -1
+
+    jobs = []
+    outer = res["merge"]
+    for i, (sub, inner) in enumerate(zip(log["subset"], outer)):
+        an = inner["merge"]
+        j = dict(sub)
+        j["index"] = i
+        j["nJobs"] = len(an)
+        j["chunks"] = [[rot_index(r) for r in a["rots"]] for a in an]
+        j["outShape"] = sorted({tuple(a["post"]["out_shape"]) for a in an})
+        j["an_offset"] = sorted({tuple(a["offset"]) for a in an})
+        j["an_valid"] = sorted({a["convolution_mode"] for a in an})
+        j["an_targetshape"] = sorted({tuple(a["targetshape"]) for a in an})
+        j["an_templateshape"] = sorted({tuple(a["templateshape"]) for a in an})
+        j["threadSafe"] = sorted({a["thread_safe"] for a in an})
+        j["an_conv"] = sorted({tuple(a["convolution_shape"]) for a in an})
+        j["an_shift"] = sorted({tuple(a.get("fourier_shift") or ()) for a in an})
+        j["inner_merge_is_scan"] = bool(inner["inner"])
+        jobs.append(j)
+    return {"jobs": jobs, "n_subset": len(log["subset"]), "n_results": len(outer), "outer_threshold": res["score_threshold"],
+            "outer_is_scan": bool(res["inner"]), "scan": log["scan"], "splitrot": log["splitrot"], "parallel": log["parallel"]}
+
+
+def _enum_model_view(mj):
+    """the model's job in the shape `_enum_real` reports"""
+    return {"targetSlice": mj["targetSlice"], "templateSlice": mj["templateSlice"], "pad": mj["pad"], "offset": mj["offset"],
+            "valid": mj["valid"], "targetShape": mj["targetShape"], "templateShape": mj["templateShape"], "index": mj["index"],
+            "nJobs": mj["nJobs"], "chunks": mj["chunks"], "outShape": [tuple(mj["outShape"])], "an_offset": [tuple(mj["offset"])],
+            "an_valid": ["valid" if mj["valid"] else "same"], "an_targetshape": [tuple(mj["targetShape"])],
+            "an_templateshape": [tuple(mj["templateShape"])], "threadSafe": [mj["threadSafe"]], "inner_merge_is_scan": True}
+
+
+def _enum_stream(ctx, d):
+    """structured random configurations: ranks 2/3, 1-4 parts per axis (not dividing the extent), template parts, more inner
+    jobs than rotations, edge padding on/off, schedules (1,1), (2,1), (1,2), ...; most with joblib.Parallel replaced by a
+    sequential stand-in (every wrapper is visible to every job, the requested job counts are recorded), a few as the code runs
+    them: loky worker processes for the outer jobs, nested workers for the inner ones"""
+    rng = ctx.rng("enum")
+    n = ctx.budget(17, 260)
+    nloky = ctx.budget(1, 8)
+    SCH = [(1, 1), (2, 1), (1, 2), (2, 2), (1, 4), (3, 1), (1, 3), (3, 2)]
+    for it in range(n):
+        nd = 2 if it % 3 else 3
+        ms = [int(x) for x in rng.integers(1, 5 if nd == 2 else 4, size=nd)]
+        ns = [int(rng.integers(max(m, 2) + 2, 14 if nd == 2 else 9)) for m in ms]
+        ts = {}
+        for ax in range(nd):
+            if rng.random() < 0.7:
+                k = int(rng.integers(1, 5))
+                if ns[ax] % k == 0 and k > 1 and rng.random() < 0.7:
+                    k = k + 1 if k < 4 else 3
+                ts[ax] = min(k, ns[ax])
+        while int(np.prod(list(ts.values()) or [1])) > ctx.budget(8, 24):      # every job forks a SharedMemoryManager
+            ax = max(ts, key=ts.get)
+            ts[ax] -= 1
+        tms = {}
+        if it % 6 == 5:
+            ax = int(rng.integers(0, nd))
+            if ms[ax] >= 2:
+                tms[ax] = 2
+        sched = SCH[it % len(SCH)] if it >= nloky else [(2, 1), (1, 2), (2, 2)][it % 3]
+        nrot = int(rng.integers(1, 6))
+        if it % 4 == 1:
+            nrot = max(1, sched[1] - 1)          # more inner jobs than rotations (when inner > 1)
+        pe = bool(it % 2 == 0) if it % 5 else bool(rng.random() < 0.5)
+        backend = "loky" if it < nloky else "sequential"
+        inp = {"ns": ns, "ms": ms, "target_splits": {str(k): v for k, v in ts.items()},
+               "template_splits": {str(k): v for k, v in tms.items()}, "schedule": list(sched), "nrot": nrot, "pad_target_edges": pe,
+               "backend": backend, "pad_fourier": bool(it % 7 != 3)}
+        try:
+            pad_fourier = bool(it % 7 != 3)
+            real = _enum_real(ns, ms, ts, tms, sched, nrot, pe, backend=backend, pad_fourier=pad_fourier)
+        except Exception as e:       # the orchestration must not fail on a well-formed request
+            ctx.spec("scan_subsets enumerates its jobs without error", inp, False, repr(e)[:300], key="enum:exception")
+            continue
+        model = d.call("c02.enumJobs", target=ns, template=ms, targetSplits=[ts.get(a, 0) for a in range(nd)],
+                       templateSplits=[tms.get(a, 0) for a in range(nd)], outer=sched[0], inner=sched[1], nRot=nrot, padEdges=pe,
+                       padFourier=pad_fourier)
+        mjobs = [_enum_model_view(j) for j in model["jobs"]]
+        fpad = [[list(j.pop("an_conv")), list(j.pop("an_shift"))] for j in real["jobs"]]
+        rjobs = [{k: (v if not isinstance(v, list) or not v or not isinstance(v[0], tuple) else [tuple(x) for x in v])
+                  for k, v in j.items()} for j in real["jobs"]]
+        ctx.agree("scan_subsets job enumeration (slices, paddings, offsets, shapes, modes, rotation chunks per analyzer, order)",
+                  inp, rjobs, mjobs)
+        ctx.agree("fourier_padding of every job's subset as told to its analyzers (convolution_shape, fourier_shift) == C01's model", inp,
+                  fpad, [[[tuple(c)], [tuple(f)]] for c, f in zip(model["convShape"], model["fourierShift"])])
+        ctx.agree("merge calls: scan merges one analyzer per chunk, scan_subsets merges one result per job, in job order", inp,
+                  [real["n_results"], real["outer_threshold"], real["outer_is_scan"], [len(j["chunks"]) for j in real["jobs"]]],
+                  [len(model["mergePlan"]), 0.25, False, [len(l) for l in model["mergePlan"]]])
+        if backend == "sequential":
+            ctx.agree("joblib.Parallel is created with n_jobs = outer once, then n_jobs = inner once per job", inp,
+                      real["parallel"], [sched[0]] + [sched[1]] * len(model["jobs"]))
+            ctx.agree("scan calls: device number and job count per job", inp,
+                      sorted((s["gpu_index"], s["n_jobs"], tuple(s["offset"])) for s in real["scan"]),
+                      sorted((j["gpuIndex"], j["nJobs"], tuple(j["offset"])) for j in model["jobs"]))
+            ctx.agree("_split_rotations_on_jobs as called by scan (chunk sizes)", inp,
+                      sorted((s["n_jobs"], tuple(s["sizes"])) for s in real["splitrot"]),
+                      sorted((j["nJobs"], tuple(len(c) for c in j["chunks"])) for j in model["jobs"]))
+        # spec, independent of the model: every (voxel, rotation, template part) is evaluated, and reported at its own position
+        cover = np.zeros(ns + [nrot], dtype=np.int64)
+        okpos = True
+        parts = sorted({tuple(map(tuple, j["templateSlice"])) for j in real["jobs"]})
+        for j in real["jobs"]:
+            if tuple(map(tuple, j["templateSlice"])) != parts[0]:
+                continue
+            off, shp = j["an_offset"][0], j["outShape"][0]
+            okpos = okpos and list(off) == [s[0] for s in j["targetSlice"]] and len(j["outShape"]) == 1
+            if not tms:
+                okpos = okpos and list(shp) == [s[1] - s[0] for s in j["targetSlice"]]
+            sl = tuple(slice(o, o + e) for o, e in zip(off, shp))
+            for c in j["chunks"]:
+                for r in c:
+                    if 0 <= r < nrot:
+                        cover[sl + (r,)] += 1
+                    else:
+                        okpos = False
+        ctx.spec("every (voxel, rotation) pair is evaluated by some job and reported in the box [slice start, slice stop)", inp,
+                 bool(okpos and (cover > 0).all()), {"min cover": int(cover.min()), "positions ok": bool(okpos)}, key="enum:coverage")
+        ctx.distinct(("enum", tuple(ns), tuple(ms), tuple(sorted(ts.items())), tuple(sorted(tms.items())), tuple(sched), nrot, pe))
+        ctx.count("enum:" + backend)
+        ctx.count("enum:rank%d" % nd)
+        ctx.count("enum:" + ("padded" if pe else "unpadded"))
+        if tms:
+            ctx.count("enum:template-splits")
+        if sched[1] > nrot:
+            ctx.count("enum:jobs>rotations")
+        if it < 2:
+            ctx.sample({"scan_subsets enumeration": inp, "jobs": [{k: j[k] for k in ("targetSlice", "templateSlice", "offset", "chunks")} for j in real["jobs"]][:4]})
+
+
+@contextlib.contextmanager
+def _sequential_parallel():
+    """joblib.Parallel inside tme.matching_exhaustive replaced by a stand-in that runs the delayed calls in order, in
+    this thread (the orchestration and the analyzers / merge are the library's own)"""
+    import tme.matching_exhaustive as MX
+    real = MX.Parallel
+
+    class SeqParallel:
+        def __init__(self, n_jobs=None, **kw):
+            pass
+
+        def __call__(self, tasks):
+            return [f(*a, **k) for f, a, k in tasks]
+
+    MX.Parallel = SeqParallel
+    try:
+        yield
+    finally:
+        MX.Parallel = real
+
+
+def _padded_tile(target, sl, pad):
+    """the array of one job (C14: neighbouring voxels where the target has them, mirrored ones beyond its ends)"""
+    left = [(p + p % 2) // 2 for p in pad]
+    dl = [min(a, l) for (a, b), l in zip(sl, left)]
+    dr = [min(n - b, l) for (a, b), l, n in zip(sl, left, target.shape)]
+    arr = target[tuple(slice(a - x, b + y) for (a, b), x, y in zip(sl, dl, dr))]
+    return np.pad(arr, [(l - x, l - y) for l, x, y in zip(left, dl, dr)], mode="reflect")
+
+
+def _e2e_stream(ctx, d):
+    """end to end on integer data (exact): the real scan_subsets (CC, MaxScoreOverRotations, grid rotations) against
+    Pm.C02.scanSubsetsRun = Pm.C04.merge over Pm.C02.enumJobs, fed with the per-(job, rotation) score arrays of the
+    *definition* (windowed sums on the job's own padded tile, numpy) — the function the theorems scan_subsets_schedule_free /
+    scan_subsets_eq_unsplit / match_result_independent_of_splits_schedule_order are about"""
+    rng = ctx.rng("e2e")
+    n = ctx.budget(7, 120)
+    nloky = ctx.budget(0, 6)
+    SCH = [(1, 1), (2, 1), (1, 2), (2, 3), (1, 4), (3, 2)]
+    for it in range(n):
+        nd = 2 if it % 3 else 3
+        ms = [int(x) for x in rng.integers(2, 5 if nd == 2 else 4, size=nd)]
+        if it % 4 == 0:
+            ms = [ms[0]] * nd          # every grid rotation fits
+        ns = [int(rng.integers(m + 3, 12 if nd == 2 else 8)) for m in ms]
+        ts = {}
+        for ax in range(nd):
+            if rng.random() < 0.75:
+                ts[ax] = int(min(rng.integers(1, 5), ns[ax]))
+        while int(np.prod(list(ts.values()) or [1])) > ctx.budget(6, 16):      # every job forks a SharedMemoryManager
+            ax = max(ts, key=ts.get)
+            ts[ax] -= 1
+        grid = [g for g in S.grid_rotations(nd) if S.rot_ok_for_shape(g[0], ms)]
+        nrot = int(min(len(grid), rng.integers(1, 5)))
+        pick = [grid[i] for i in rng.permutation(len(grid))[:nrot]]
+        sched = SCH[it % len(SCH)]
+        pe = bool(it % 5 != 4)
+        thr = [-10 ** 6, 0, 5][it % 3]
+        loky = it < nloky and sched != (1, 1)
+        target = rng.integers(-4, 5, size=ns).astype(np.float64)
+        template = rng.integers(-3, 4, size=ms).astype(np.float64)
+        R = [g[2] for g in pick]
+        inp = {"ns": ns, "ms": ms, "target_splits": {str(k): v for k, v in ts.items()}, "schedule": list(sched),
+               "rotations (perm, flip)": [[g[0], g[1]] for g in pick], "pad_target_edges": pe, "threshold": thr,
+               "worker_processes": loky, "data": _data(target, template, None, None, R)}
+        S.set_precision(True)
+        try:
+            with (contextlib.nullcontext() if loky else _sequential_parallel()):
+                res = _subsets("CC", target, template, None, None, R, splits=ts, schedule=sched, pad=True, pe=pe,
+                               cargs={"score_threshold": thr})
+        except Exception as e:
+            ctx.spec("scan_subsets runs on a well-formed request", inp, False, repr(e)[:300], key="e2e:exception")
+            continue
+        finally:
+            S.set_precision(False)
+        model = d.call("c02.enumJobs", target=ns, template=ms, targetSplits=[ts.get(a, 0) for a in range(nd)],
+                       templateSplits=[0] * nd, outer=sched[0], inner=sched[1], nRot=nrot, padEdges=pe)
+        data, placed = [], []
+        for j in model["jobs"]:
+            P = _padded_tile(target, [tuple(x) for x in j["targetSlice"]], j["pad"])
+            W = S.windows(P, ms)
+            per = []
+            for (perm, flip, _) in pick:
+                full = (W * S.rotate_grid(template, perm, flip)).sum(axis=tuple(range(nd, 2 * nd)))
+                if j["valid"]:
+                    full = full[tuple(slice(m // 2, m // 2 + e) for m, e in zip(ms, j["outShape"]))]
+                per.append(np.rint(full).astype(np.int64))
+            ok_shape = all(list(a.shape) == j["outShape"] for a in per)
+            data.append([a.reshape(-1).tolist() for a in per] if ok_shape else None)
+            placed.append((j["offset"], per))
+        if any(x is None for x in data):
+            ctx.agree("definition-level tile scores have the job's cropped shape", inp, False, True)
+            continue
+        m = d.call("c02.scanSubsets", target=ns, template=ms, targetSplits=[ts.get(a, 0) for a in range(nd)],
+                   templateSplits=[0] * nd, outer=sched[0], inner=sched[1], rots=list(range(nrot)), padEdges=pe, thr=thr,
+                   scores=data)
+        sc = np.rint(np.asarray(res[0], np.float64)).astype(np.int64)
+        impl = {"shape": list(sc.shape), "offset": [int(x) for x in np.asarray(res[1]).reshape(-1)], "scores": sc.reshape(-1).tolist()}
+        if not isinstance(m, dict):
+            ctx.agree("scan_subsets result == Pm.C02.scanSubsetsRun (score map, offset, shape)", inp, impl, m)
+            continue
+        ctx.agree("scan_subsets result == Pm.C02.scanSubsetsRun (score map, offset, shape)", inp, impl,
+                  {"shape": m["shape"], "offset": m["offset"], "scores": m["scores"]})
+        # the stored rotation attains the stored value (ties between rotations may be broken differently by rounding noise)
+        rot = np.asarray(res[2]).astype(np.int64)
+        inv = {int(v): np.frombuffer(k, dtype=np.float32 if len(k) == 4 * nd * nd else np.float64).reshape(nd, nd)
+               for k, v in dict(res[3]).items()}
+        att_ok, marker_ok = True, True
+        if list(sc.shape) == m["shape"]:
+            msc = np.array(m["scores"], dtype=np.int64).reshape(sc.shape)
+            for rid in np.unique(rot):
+                sel = rot == rid
+                if rid < 0:
+                    marker_ok = marker_ok and bool((msc[sel] == thr).all())
+                    continue
+                hits = [i for i in range(nrot) if rid in inv and np.allclose(inv[int(rid)], R[i], atol=1e-6)]
+                if len(hits) != 1:
+                    att_ok = False
+                    continue
+                att = np.zeros(sc.shape, bool)
+                for off, per in placed:
+                    sl = tuple(slice(o, o + e) for o, e in zip(off, per[hits[0]].shape))
+                    att[sl] |= per[hits[0]] == msc[sl]
+                att_ok = att_ok and bool(att[sel].all())
+        ctx.spec("per voxel, the stored rotation attains the stored value; the marker stands only where the value is the threshold", inp,
+                 bool(att_ok and marker_ok), {"attains": att_ok, "marker": marker_ok}, key="e2e:rotation")
+        ctx.distinct(("e2e", tuple(ns), tuple(ms), tuple(sorted(ts.items())), tuple(sched), nrot, pe, thr))
+        ctx.count("e2e:" + ("loky" if loky else "sequential"))
+        ctx.count("e2e:" + ("padded" if pe else "unpadded"))
+        if sched[1] > nrot:
+            ctx.count("e2e:jobs>rotations")
 
 
 def run(ctx):
@@ -905,6 +1299,11 @@ def run(ctx):
         ctx.distinct(("tile", tuple(ns), tuple(ms), tuple((s.start, s.stop) for s in sl), pad))
         ctx.count("tile-valid-frame")
     _tick(ctx, "tile-model")
+    # ---- the orchestration: jobs, offsets, rotation chunks, merge calls of the real scan_subsets / scan vs Pm.C02.enumJobs
+    _enum_stream(ctx, d)
+    _tick(ctx, "enumeration")
+    _e2e_stream(ctx, d)
+    _tick(ctx, "end-to-end (integer)")
     ctx.extra.pop("_c02_t", None)
 
 
